@@ -10,6 +10,7 @@ mod c07;
 mod c08;
 mod c17;
 mod c11;
+mod c12;
 mod c13;
 mod c11_live;
 mod c15;
@@ -28,6 +29,9 @@ pub fn run(engine: &str, toks: Vec<Tok>) -> Vec<Tok> {
         "c06_encode" => c06::encode(toks),
         "c07_run" => c07::run(toks),
         "c08_run" => c08::run(toks),
+        "c12_extract" => c12::extract(toks),
+        "c12_peek" => c12::peek(toks),
+        "c12_handshake" => c12::handshake(toks),
         "c01_session" => c01::session(toks),
         "c17_run" => c17::run(toks),
         "c11_checksum" => c11::checksum(toks),
